@@ -20,6 +20,8 @@ for c in m['checks']:
     assert e['violations']==0, c['property_id']
 print('manifest and evidence valid for', [c['property_id'] for c in m['checks']])
 PY
+# the replay oracles must all pass on the tree as it is
+tools/replay_selfcheck.sh > /dev/null 2>&1 || { echo 'replay self-check FAILED'; rc=1; }
 # reliance audit: every callee postcondition assumed at a call site is discharged by some check
 bin/govc audit 2>/dev/null > reliance_audit.txt || rc=1
 tail -1 reliance_audit.txt
